@@ -171,7 +171,44 @@ def _transform_by_value(f, b, adt):
     pn = [b.local_name(i) or 'arg%d' % i for i in b.args()]
     if len(pn) != 2:
         return False, 'unexpected signature'
-    sx = SymEx(f, opaque=('mul',), sym_collections=True)
+    okm, whym = _transform_by_value_with(f, b, adt, pn, ('mul',))
+    if okm:
+        return okm, whym
+    # the components' product with a transform evaluated down to arithmetic: a helper that builds the moved component field
+    # by field is the same value as `component * transform`
+    okv, whyv = _transform_by_value_with(f, b, adt, pn, ())
+    return (okv, whyv) if okv else (okm, whym)
+
+
+def _component_product(f, comp, tname):
+    """value of the workspace's own `component * transform` for a symbolic component $x (None when it cannot be evaluated)"""
+    from ..sym import SymEx, SYM
+    vals = set()
+    for mb in f.bodies.values():
+        if mb.fn_name != 'mul' or mb.is_closure or len(mb.args()) != 2:
+            continue
+        t1, t2 = mb.local_ty(1).replace('packing::', ''), mb.local_ty(2).replace('packing::', '')
+        if comp in t1 and 'Transform2' in t2:
+            a = [SYM('$x'), SYM(tname)]
+        elif comp in t2 and 'Transform2' in t1:
+            a = [SYM(tname), SYM('$x')]
+        else:
+            continue
+        sx = SymEx(f)
+        try:
+            outs = sx.run(mb, a)
+        except Exception:      # noqa: BLE001
+            return None
+        if len(outs) != 1 or sx.aborted:
+            return None
+        vals.add(repr(sx.deep(outs[0].st, outs[0].ret)))
+    return vals
+
+
+def _transform_by_value_with(f, b, adt, pn, opaque):
+    from ..sym import SymEx, SYM, sfield
+    from ..nest import Nest
+    sx = SymEx(f, opaque=opaque, sym_collections=True)
     try:
         outs = sx.run(f.nest_form(b, yields=False), [SYM(pn[0]), SYM(pn[1])])
     except Exception as ex:      # noqa: BLE001
@@ -199,10 +236,19 @@ def _transform_by_value(f, b, adt):
         b0 = b0[2][0]
     if b0 != SYM(pn[0] + '.items') or start != ('num', 0):
         return False, 'the components do not range over all of self.items (base %s, from %s)' % (repr(b0)[:40], repr(start)[:20])
-    if not (isinstance(elem, tuple) and elem[0] == 'app' and elem[1].endswith('mul') and len(elem[2]) == 2 and
-            set(map(repr, elem[2])) == {repr(SYM('$x')), repr(SYM(pn[1]))}):
-        return False, 'a component is mapped to %s, not to component * transform' % (repr(elem)[:80],)
-    return True, 'items = { x * transform | x in self.items } by value'
+    if opaque:
+        if not (isinstance(elem, tuple) and elem[0] == 'app' and elem[1].endswith('mul') and len(elem[2]) == 2 and
+                set(map(repr, elem[2])) == {repr(SYM('$x')), repr(SYM(pn[1]))}):
+            return False, 'a component is mapped to %s, not to component * transform' % (repr(elem)[:80],)
+        return True, 'items = { x * transform | x in self.items } by value'
+    if not (isinstance(elem, tuple) and elem[0] == 'struct'):
+        return False, 'a component is mapped to %s, not to a component' % (repr(elem)[:80],)
+    want = _component_product(f, elem[1].replace('packing::', ''), pn[1])
+    if not want or len(want) != 1:
+        return False, 'the product of a %s with a transform could not be evaluated to one value' % elem[1]
+    if repr(elem) not in want:
+        return False, 'a component is mapped to a value that differs from component * transform: %s' % (repr(elem)[:120],)
+    return True, 'items = { x * transform | x in self.items } by value (the product evaluated field by field)'
 
 
 def shape_transform_obligations(ctx, rule='R5', adts=ALL_SHAPES):
